@@ -33,6 +33,7 @@ import (
 	"path/filepath"
 	"runtime"
 	"runtime/debug"
+	"runtime/pprof"
 	"sort"
 	"strconv"
 	"strings"
@@ -50,7 +51,23 @@ const (
 	rlimitAS     = 4 << 30
 	hangCPU      = 20 * time.Second
 	hangRepeats  = 5
+	// quick tier: seeds above this size get substitution at item-head bytes only and are
+	// skipped by the "heavy" variant decoders; the thorough tier treats every seed in full
+	quickFullSeed = 1100
 )
+
+// allocBoundOf: base + c * len * D, D = nesting depth of the input (1..256) as seen by the
+// harness's own scanner.
+func allocBoundOf(in []byte) uint64 {
+	d := scanDepth(in)
+	if d < 1 {
+		d = 1
+	}
+	if d > 256 {
+		d = 256
+	}
+	return allocBase + allocPerByte*uint64(len(in))*uint64(d)
+}
 
 func allocBound(n int) uint64 { return allocBase + allocPerByte*uint64(n) }
 
@@ -61,7 +78,7 @@ const repoPrefix = "github.com/blinklabs-io/gouroboros/"
 func decoderFamilies(d *decoder, thorough bool) []family {
 	var fams []family
 	fams = append(fams, bytesOfLen(0), bytesOfLen(1), bytesOfLen(2))
-	if thorough && d.cheap {
+	if thorough && d.sweep3 {
 		fams = append(fams, bytesOfLen(3))
 	}
 	fams = append(fams, standaloneNests())
@@ -70,7 +87,11 @@ func decoderFamilies(d *decoder, thorough bool) []family {
 		maxPos = 1500
 	}
 	for _, s := range d.seeds {
-		sf := seedFamilies(s.name, s.b, !d.notCbor, maxPos, 0)
+		big := len(s.b) > quickFullSeed
+		if !thorough && big && d.heavy {
+			continue // variant decoders (skip-hash / with-offsets) take the large blocks in the thorough tier only
+		}
+		sf := seedFamilies(s.name, s.b, !d.notCbor, maxPos, 0, !thorough && big)
 		fams = append(fams, sf...)
 		if d.post != nil {
 			for _, f := range sf {
@@ -137,6 +158,7 @@ type unitRes struct {
 	Calib    []calibRec `json:"calib,omitempty"`
 	MaxAlloc uint64     `json:"maxalloc"` // largest single-call (or batch) TotalAlloc delta seen
 	MaxLen   int        `json:"maxlen"`
+	MaxFrac  float64    `json:"maxfrac"` // largest alloc delta as a fraction of the bound (batch delta vs bound of the shortest input = upper bound)
 	Sample   *violRec   `json:"sample,omitempty"`
 	ErrText  string     `json:"errtext,omitempty"`
 }
@@ -292,10 +314,10 @@ func workerMain(args []string) {
 			default:
 				res.Err++
 			}
-			if allocKnown && alloc > allocBound(len(in)) {
+			if allocKnown && alloc > allocBoundOf(in) {
 				res.AllocV++
 				if len(res.Viol) < 40 {
-					res.Viol = append(res.Viol, violRec{Idx: idx, Kind: "alloc", What: fmt.Sprintf("TotalAlloc delta %d B for a %d B input (bound %d)", alloc, len(in), allocBound(len(in))), Alloc: alloc, Len: len(in), Hex: hex.EncodeToString(in)})
+					res.Viol = append(res.Viol, violRec{Idx: idx, Kind: "alloc", What: fmt.Sprintf("TotalAlloc delta %d B for a %d B input of nesting depth %d (bound %d)", alloc, len(in), scanDepth(in), allocBoundOf(in)), Alloc: alloc, Len: len(in), Hex: hex.EncodeToString(in)})
 				}
 			}
 			if res.Sample == nil && len(in) > 0 && len(in) <= 64 && idx%7 == 3 {
@@ -316,7 +338,7 @@ func workerMain(args []string) {
 		i := u.Lo
 		for i < u.Hi {
 			nb := 0
-			minLen := 1 << 30
+			minBound := uint64(1) << 62
 			budget := 65536
 			for nb < maxBatch && i < u.Hi && budget > 0 {
 				in := get(i)
@@ -337,8 +359,8 @@ func workerMain(args []string) {
 					res.Distinct++
 				}
 				batch[nb], bidx[nb] = in, i
-				if len(in) < minLen {
-					minLen = len(in)
+				if bd := allocBoundOf(in); bd < minBound {
+					minBound = bd
 				}
 				if len(in) > res.MaxLen {
 					res.MaxLen = len(in)
@@ -358,10 +380,13 @@ func workerMain(args []string) {
 			}
 			runtime.ReadMemStats(&ms1)
 			delta := ms1.TotalAlloc - ms0.TotalAlloc
-			if delta <= allocBound(minLen) {
+			if delta <= minBound {
 				// every call of the batch is within the bound of the shortest input
 				if delta > res.MaxAlloc {
 					res.MaxAlloc = delta
+				}
+				if f := float64(delta) / float64(minBound); f > res.MaxFrac {
+					res.MaxFrac = f
 				}
 				for j := 0; j < nb; j++ {
 					record(bidx[j], batch[j], bres[j], 0, false)
@@ -373,7 +398,7 @@ func workerMain(args []string) {
 					journal(u.Unit, bidx[j])
 					a := measure(d.fn, batch[j])
 					r := curResult
-					if a > allocBound(len(batch[j])) {
+					if a > allocBoundOf(batch[j]) {
 						journal(u.Unit, bidx[j])
 						a2 := measure(d.fn, batch[j])
 						if a2 < a {
@@ -382,6 +407,9 @@ func workerMain(args []string) {
 					}
 					if a > res.MaxAlloc {
 						res.MaxAlloc = a
+					}
+					if f := float64(a) / float64(allocBoundOf(batch[j])); f > res.MaxFrac && f <= 1 {
+						res.MaxFrac = f
 					}
 					record(bidx[j], batch[j], r, a, true)
 				}
@@ -461,7 +489,7 @@ func startWorker(id string) (*worker, error) {
 		return nil, err
 	}
 	w.cmd = exec.Command(self, "-worker", w.jpath)
-	w.cmd.Env = append(os.Environ(), "GOTRACEBACK=single", "GOGC=off", "GOMEMLIMIT=512MiB")
+	w.cmd.Env = append(os.Environ(), "GOTRACEBACK=single", "GOGC=100", "C02_FIXTURES_WRITE=0")
 	w.cmd.Stderr = w.stderr
 	w.stdin, err = w.cmd.StdinPipe()
 	if err != nil {
@@ -583,6 +611,7 @@ type decStats struct {
 	n, ok, err, panics, allocv, skipped, distinct int64
 	fatal, hang                                 int64
 	maxAlloc                                    uint64
+	maxFrac                                     float64
 	units, unitsDone                            int
 	crashes                                     int
 	abandoned                                   bool
@@ -743,6 +772,9 @@ func (s *supervisor) handleResult(u unitCmd, res unitRes) {
 	st.distinct += res.Distinct
 	if res.MaxAlloc > st.maxAlloc {
 		st.maxAlloc = res.MaxAlloc
+	}
+	if res.MaxFrac > st.maxFrac {
+		st.maxFrac = res.MaxFrac
 	}
 	if fams := s.fams[u.Dec]; u.Fam >= 0 && u.Fam < len(fams) {
 		st.families[fams[u.Fam].name] += res.N
@@ -960,6 +992,14 @@ func main() {
 		workerMain(os.Args[2:])
 		return
 	}
+	if len(os.Args) >= 5 && os.Args[1] == "-memprof" {
+		memprofMain(os.Args[2:])
+		return
+	}
+	if len(os.Args) >= 5 && os.Args[1] == "-bench" {
+		benchMain(os.Args[2:])
+		return
+	}
 	if len(os.Args) >= 2 && os.Args[1] == "-seeds" {
 		seedsMain()
 		return
@@ -973,6 +1013,8 @@ func main() {
 	s := &supervisor{c: c, byName: map[string]*decoder{}, fams: map[string][]family{}, stats: map[string]*decStats{},
 		calib: map[string][]calibRec{}, keyCount: map[string]int{}, notes: map[string]bool{}}
 	s.cond = sync.NewCond(&s.mu)
+	os.Setenv("C02_FIXTURES", filepath.Join(workDir, "fixtures.json"))
+	os.Setenv("C02_FIXTURES_WRITE", "1")
 	s.decs = allDecoders()
 	for _, d := range s.decs {
 		s.byName[d.name] = d
@@ -991,13 +1033,18 @@ func main() {
 	}
 	// plan
 	onlyDec := os.Getenv("C02_ONLY") // development aid: restrict to decoders containing this substring
-	unitID := 0
 	var totalInputs int64
+	var sel []*decoder
 	for _, d := range s.decs {
-		if onlyDec != "" && !strings.Contains(d.name, onlyDec) {
-			continue
+		if onlyDec == "" || strings.Contains(d.name, onlyDec) {
+			sel = append(sel, d)
 		}
-		fams := decoderFamilies(d, c.Thorough())
+	}
+	built := make([][]family, len(sel))
+	vlib.Parallel(len(sel), func(i int) { built[i] = decoderFamilies(sel[i], c.Thorough()) })
+	unitID := 0
+	for di, d := range sel {
+		fams := built[di]
 		s.fams[d.name] = fams
 		st := &decStats{families: map[string]int64{}}
 		s.stats[d.name] = st
@@ -1016,7 +1063,7 @@ func main() {
 				}
 				unitID++
 				sl := float64(f.slen + 30)
-				s.queue = append(s.queue, unitCmd{Unit: unitID, Dec: d.name, Fam: fi, Lo: lo, Hi: hi, Thorough: c.Thorough(), est: float64(hi-lo) * sl})
+				s.queue = append(s.queue, unitCmd{Unit: unitID, Dec: d.name, Fam: fi, Lo: lo, Hi: hi, Thorough: c.Thorough(), est: float64(hi-lo) * sl * sl})
 				st.units++
 				totalInputs += int64(hi - lo)
 			}
@@ -1071,7 +1118,7 @@ func (s *supervisor) finish(planned int64) {
 		unitsTotal += st.units
 		unitsDone += st.unitsDone
 		perDec[name] = map[string]any{"inputs": st.n, "ok": st.ok, "err": st.err, "panic": st.panics, "alloc_excess": st.allocv,
-			"fatal": st.fatal, "hang": st.hang, "max_alloc_delta": st.maxAlloc, "by_family": st.families, "seeds": len(s.byName[name].seeds)}
+			"fatal": st.fatal, "hang": st.hang, "max_alloc_delta": st.maxAlloc, "max_fraction_of_bound_within_bound": float64(int(st.maxFrac*1000)) / 1000, "by_family": st.families, "seeds": len(s.byName[name].seeds)}
 		for _, cr := range s.calib[name] {
 			ratios = append(ratios, ratio{name, cr.Seed, cr.Len, cr.Alloc, float64(cr.Alloc) / float64(allocBound(cr.Len))})
 		}
@@ -1096,9 +1143,25 @@ func (s *supervisor) finish(planned int64) {
 	c.Set("planned_inputs", planned)
 	c.Set("skipped_identity", skipped)
 	c.Set("units", map[string]int{"total": unitsTotal, "completed": unitsDone})
-	c.Set("alloc_bound", fmt.Sprintf("TotalAlloc delta of one call <= %d + %d*len(input) bytes; RLIMIT_AS %d GiB; hang = %v CPU on one input, %d/%d reproductions", allocBase, allocPerByte, rlimitAS>>30, hangCPU, hangRepeats, hangRepeats))
+	c.Set("alloc_bound", fmt.Sprintf("TotalAlloc delta of one call <= %d + %d*len(input)*D bytes, D = nesting depth of the input (1..256, own scanner); RLIMIT_AS %d GiB; hang = %v CPU on one input, %d/%d reproductions", allocBase, allocPerByte, rlimitAS>>30, hangCPU, hangRepeats, hangRepeats))
 	c.Set("calibration_top_seed_alloc_fraction_of_bound", top)
+	if s.seedRej == nil {
+		s.seedRej = []string{}
+	}
 	c.Set("seeds_rejected_by_their_decoder", s.seedRej)
+	var fr []ratio
+	for _, name := range names {
+		fr = append(fr, ratio{dec: name, frac: s.stats[name].maxFrac, alloc: s.stats[name].maxAlloc})
+	}
+	sort.Slice(fr, func(i, j int) bool { return fr[i].frac > fr[j].frac })
+	var topf []any
+	for i, r := range fr {
+		if i >= 8 {
+			break
+		}
+		topf = append(topf, map[string]any{"decoder": r.dec, "max_fraction_of_bound": float64(int(r.frac*1000)) / 1000, "max_alloc_delta": r.alloc})
+	}
+	c.Set("closest_to_alloc_bound_without_exceeding", topf)
 	c.Set("per_decoder", perDec)
 	c.Assume("the Go runtime's MemStats.TotalAlloc accounting and /proc/<pid>/stat CPU times are trusted")
 	c.Assume("decoders are deterministic functions of their input (an alloc excess / crash must reproduce on a second run to count)")
@@ -1162,4 +1225,73 @@ func seedsMain() {
 			fmt.Printf("    %-28s %6d B  %s  %s\n", s.name, len(s.b), st, firstN(hx(s.b), 40))
 		}
 	}
+}
+
+// benchMain (development aid): raw decoder cost vs harness overhead.
+func benchMain(args []string) {
+	t0 := time.Now()
+	ds := allDecoders()
+	fmt.Println("allDecoders:", time.Since(t0))
+	var d *decoder
+	for _, x := range ds {
+		if x.name == args[0] {
+			d = x
+		}
+	}
+	fi, _ := strconv.Atoi(args[1])
+	n, _ := strconv.Atoi(args[2])
+	t0 = time.Now()
+	fams := decoderFamilies(d, false)
+	fmt.Println("families:", time.Since(t0), fams[fi].name, fams[fi].n)
+	if n > fams[fi].n {
+		n = fams[fi].n
+	}
+	ins := make([][]byte, n)
+	if pf := os.Getenv("C02_PROF"); pf != "" {
+		f, _ := os.Create(pf)
+		pprof.StartCPUProfile(f)
+		defer pprof.StopCPUProfile()
+	}
+	t0 = time.Now()
+	for i := range ins {
+		ins[i] = fams[fi].get(i)
+	}
+	fmt.Println("get:", time.Since(t0)/time.Duration(n))
+	t0 = time.Now()
+	for _, in := range ins {
+		if in != nil {
+			call(d.fn, in)
+		}
+	}
+	fmt.Println("call:", time.Since(t0)/time.Duration(n))
+	var ms runtime.MemStats
+	t0 = time.Now()
+	for i := 0; i < 1000; i++ {
+		runtime.ReadMemStats(&ms)
+	}
+	fmt.Println("ReadMemStats:", time.Since(t0)/1000)
+}
+
+// memprofMain (development aid): allocation profile of one call.
+func memprofMain(args []string) {
+	var d *decoder
+	for _, x := range allDecoders() {
+		if x.name == args[0] {
+			d = x
+		}
+	}
+	hb, _ := os.ReadFile(args[1])
+	in, _ := hex.DecodeString(strings.TrimSpace(string(hb)))
+	for _, s := range d.seeds {
+		call(d.fn, s.b)
+	}
+	runtime.MemProfileRate = 1
+	var m0, m1 runtime.MemStats
+	runtime.ReadMemStats(&m0)
+	call(d.fn, in)
+	runtime.ReadMemStats(&m1)
+	fmt.Printf("len=%d alloc=%d mallocs=%d err=%v panic=%v\n", len(in), m1.TotalAlloc-m0.TotalAlloc, m1.Mallocs-m0.Mallocs, curResult.err, curResult.pval)
+	f, _ := os.Create(args[2])
+	pprof.Lookup("allocs").WriteTo(f, 0)
+	f.Close()
 }
